@@ -98,10 +98,29 @@ def yearly_gains(t, col, upto=None):
     return out
 
 
+def later_global_split_near_earlier_split(h, D):
+    """Input feature used by a known-finding signature: a split for all affiliates settling after D lies within a
+    day of a split of the same security settling on or before D."""
+    import datetime
+    def day(x):
+        return datetime.date.fromisoformat(x)
+    sp = [r for r in h["rows"] if r["action"] == "Split"]
+    for a in sp:
+        if a["sd"] <= D:
+            continue
+        if (a.get("af") or "").strip() != "":
+            continue          # not a split for all affiliates
+        for b in sp:
+            if b["sd"] <= D and b["sec"] == a["sec"] and abs((day(a["sd"]) - day(b["sd"])).days) <= 1:
+                return True
+    return False
+
+
 def compare(full, summ_alone, replay, D, annual, h):
     """full: run of H; replay: run of [summary.csv, rows after D]; summ_alone: run of summary.csv alone."""
     if not replay.get("ok"):
-        return {"what": "feeding the summary plus the later rows fails", "err": replay.get("err")}
+        return {"what": "feeding the summary plus the later rows fails", "err": replay.get("err"),
+                "later_global_split_near_earlier_split": later_global_split_near_earlier_split(h, D)}
     if annual:
         # Cause first: a synthetic yearly "gain summary (sell)" row must not itself be superficial.
         for sec, t2 in replay["tables"].items():
@@ -236,9 +255,6 @@ def _worker(shard):
                     j["findings"].append(d)
                     j["history"] = h
                     j["summary_csv"] = s["summary_csv"]
-                    break
-            if j["findings"]:
-                break
         if not j["findings"] and len(out) < 1 and dates:
             s = r1.get("%s#S%d%d" % (cid, 0, False), {})
             j["sample"] = {"history": gen.rows_to_csv(h["rows"], gen.used_cols(h["rows"]))[:500], "summary_date": dates[0],
@@ -284,8 +300,14 @@ def run(tier):
                 V.nontriv(j["cid"])
             if "sample" in j:
                 V.sample(j["sample"], cap=2)
-            for f in j["findings"][:1]:
-                sig = {"what": f["what"], "annual": f.get("annual"), "err": str(f.get("err", ""))}
+            seen_kinds = set()
+            for f in j["findings"]:
+                kind = (f["what"], f.get("annual"), str(f.get("err", ""))[:40], f.get("later_global_split_near_earlier_split"))
+                if kind in seen_kinds:
+                    continue
+                seen_kinds.add(kind)
+                sig = {"what": f["what"], "annual": f.get("annual"), "err": str(f.get("err", "")),
+                       "later_global_split_near_earlier_split": bool(f.get("later_global_split_near_earlier_split"))}
                 V.violation("%s [%s]" % (json.dumps(f)[:500], j["name"]),
                             {"kind": "summary_trip", "prop": PROP, "history": j["history"], "finding": f,
                              "summary_csv": j.get("summary_csv")}, sig)
